@@ -26,25 +26,47 @@ func main() { vk.Main("C09", run) }
 type tat = testproto.TestAllTypes
 
 type consumer struct {
-	permits chan struct{}
-	cancel  context.CancelFunc
-	mu      sync.Mutex
-	colEv   []*resource.CollectionChange
-	valEv   []*resource.ValueChange
-	closed  bool
+	cancel context.CancelFunc
+	mu     sync.Mutex
+	cond   *sync.Cond
+	allow  int  // receives the consumer may still perform
+	quit   bool // set by stop
+	colEv  []*resource.CollectionChange
+	valEv  []*resource.ValueChange
+	closed bool
 }
 
-func newConsumer() *consumer { return &consumer{permits: make(chan struct{}, 1000)} }
+func newConsumer() *consumer {
+	c := &consumer{}
+	c.cond = sync.NewCond(&c.mu)
+	return c
+}
 
+// grant allows n more receives.
 func (c *consumer) grant(n int) {
-	for i := 0; i < n; i++ {
-		c.permits <- struct{}{}
+	c.mu.Lock()
+	c.allow += n
+	c.cond.Broadcast()
+	c.mu.Unlock()
+}
+
+// permit blocks until a receive is allowed; false when the consumer was stopped.
+func (c *consumer) permit() bool {
+	c.mu.Lock()
+	defer c.mu.Unlock()
+	for c.allow == 0 && !c.quit {
+		c.cond.Wait()
 	}
+	if c.quit {
+		return false
+	}
+	c.allow--
+	return true
 }
 
 func (c *consumer) runCol(ch <-chan *resource.CollectionChange) {
 	go func() {
-		for range c.permits {
+		for c.permit() {
 			e, ok := <-ch
 			if !ok {
 				break
@@ -61,7 +83,7 @@ func (c *consumer) runCol(ch <-chan *resource.CollectionChange) {
 
 func (c *consumer) runVal(ch <-chan *resource.ValueChange) {
 	go func() {
-		for range c.permits {
+		for c.permit() {
 			e, ok := <-ch
 			if !ok {
 				break
@@ -78,7 +100,10 @@ func (c *consumer) runVal(ch <-chan *resource.ValueChange) {
 
 func (c *consumer) stop() {
 	c.cancel()
-	close(c.permits)
+	c.mu.Lock()
+	c.quit = true
+	c.cond.Broadcast()
+	c.mu.Unlock()
 }
 
 func (c *consumer) nCol() int { c.mu.Lock(); defer c.mu.Unlock(); return len(c.colEv) }
@@ -300,6 +325,13 @@ func colScenario(r *vk.Run, kind string, withInit bool, steps []step, bp bool) {
 		c.mu.Unlock()
 		cur, present := col.Get("a")
 		switch {
+		case removedA && !closed && present && !bp:
+			// lossy: the REMOVE was merged with a later ADD into a REPLACE before the reader got to it; the reader sees a
+			// replaced item, which the merge rules allow; then the last value must be current
+			r.Count("pullid-remove-merged-into-replace", 1)
+			if len(evs) > 0 && !vk.SameMessage(evs[len(evs)-1].Value, cur) {
+				r.Violation("C09/last-value/pullid", fmt.Sprintf("[%s]: last received %s, Get says %s", desc, vk.JSON(evs[len(evs)-1].Value), vk.JSON(cur)), replay)
+			}
 		case removedA && !closed:
 			r.Violation("C09/pullid-not-ended/"+mode, fmt.Sprintf("[%s]: item a was removed but the PullID channel is still open at the final quiescent point", desc), replay)
 		case !removedA && closed:
